@@ -648,7 +648,10 @@ pub fn run(run: &'static Run) {
         }
         // ---------- (b) mutations of valid seeds ----------
         let seeds: Vec<&seeds::Seed> = corpus.seeds.iter().filter(|s| ep.formats.contains(&s.format) && !(run.quick() && s.thorough_only)).collect();
-        if seeds.is_empty() {
+        if seeds.is_empty() && !run.is_replay() {
+            continue;
+        }
+        if ep.formats.is_empty() {
             continue;
         }
         let by_name: BTreeMap<String, &seeds::Seed> = seeds.iter().map(|s| (format!("{}/{}", s.format, s.name), *s)).collect();
